@@ -11,7 +11,7 @@ From RsM Require Import Model.Tlv Model.TlvSpec
   Proofs.TlvMonitor.
 From RsM Require Import Model.TlvDerive Model.TlvBuf Proofs.TlvDeriveFacts Proofs.TlvDeriveTotal
   Proofs.TlvDeriveRoundtrip Proofs.TlvDeriveLenient Proofs.TlvDeriveZoo Proofs.TlvBufFacts
-  Proofs.TlvBufDerive.
+  Proofs.TlvBufDerive Proofs.TlvReencodeIter.
 Import ListNotations.
 Open Scope N_scope.
 
@@ -115,6 +115,25 @@ Theorem C16_reencode : forall (s : bytes) (c : control_t) (t : tag) (v : bytes),
   el_to_tlv t s = ROk (firstn (N.to_nat (hdr_len c + blen v)) s).
 Proof. exact el_to_tlv_reproduces. Qed.
 Print Assumptions C16_reencode.
+
+(** The same through the iterator encoder: [ToTLV for TLVElement::tlv_iter]
+    + [TLV::bytes_iter] of a written element (the element's [value()], every
+    [TLV] of its content, the end marker) gives back exactly its bytes -
+    string length-field widths included, whatever width was written. *)
+Theorem C16_tlv_iter_reencode : forall (x : tree) (rest : bytes),
+  wf_tree x -> blen (encode x ++ rest) < two63 ->
+  el_reencode_iter (root_tag x) (encode x ++ rest) = ROk (encode x).
+Proof. exact reencode_iter_reproduces. Qed.
+Print Assumptions C16_tlv_iter_reencode.
+
+(** the monitor run on the implementation's read-back of what it wrote *)
+Theorem C16_read_back_monitor_sound : forall (t readback : tree) (written reenc : bytes),
+  mon_read_back t readback written reenc = true -> readback = t /\ reenc = written.
+Proof.
+  intros t rb w r H. unfold mon_read_back in H. apply Bool.andb_true_iff in H as [H1 H2].
+  split; [symmetry; apply tree_eqb_eq; exact H1|apply bytes_eqb_eq; exact H2].
+Qed.
+Print Assumptions C16_read_back_monitor_sound.
 
 (** The same at the level of trees: whatever byte string decodes to a
     tree starts with exactly the encoding of that tree, and the tree is
